@@ -508,6 +508,21 @@ def run(ck: Check):
         c = {"cfg": {"xml_declaration": False, "schema_location": None, "no_ns": None}, "stream": "witness", "expect": cls}
         c.update(copy.deepcopy(w))
         cases.append(c)
+    # corpus: minimised failing cases of earlier runs (and --replay FILE) run first
+    import glob
+    corpus_files = [ck.replay_file] if getattr(ck, "replay_file", None) else \
+        sorted(glob.glob(os.path.join(os.path.dirname(CORR), "..", "replays", "C03", "*.json")))[:60]
+    for fn in corpus_files:
+        try:
+            rp = json.load(open(fn)).get("replay", {})
+            if isinstance(rp.get("events"), list) and isinstance(rp.get("user"), list):
+                cfgc = {"xml_declaration": False, "schema_location": None, "no_ns": None}
+                cfgc.update(rp.get("cfg") or {})
+                cases.append({"cfg": cfgc, "user": rp["user"], "events": rp["events"], "stream": "corpus"})
+        except Exception:  # noqa  (an unreadable replay is not a verdict)
+            ck.notes.append(f"unreadable replay {fn}")
+    if getattr(ck, "replay_file", None):
+        n_ev = n_obj = 0
     for i in range(n_ev):
         cases.append((g if i % 2 else gq).case())
     for i in range(n_obj):
@@ -544,14 +559,15 @@ def run(ck: Check):
 
     CORR_P = ("agree_native", "agree_lxml", "agree_resolve")
     ORACLE_P = ("oracle_native", "oracle_lxml", "oracle_sinks_agree")
-    preds = ["all_good", "cl_guard", "cl_wf", "lxml_abstains", *CORR_P, *ORACLE_P] + [p for p, _ in CLAUSES]
+    preds = ["all_good", "cl_guard", "cl_wf", "lxml_abstains", "lxml_covered", "in_lxml_theorem", *CORR_P, *ORACLE_P] + [p for p, _ in CLAUSES]
     verdict = coq_multi("c03", preds, terms)
     bad = verdict["all_good"]
     in_guard = len(live) - len(verdict["cl_guard"])
     detail = {p: set(verdict[p]) for p in (*CORR_P, *ORACLE_P, "cl_wf")}
     viol = {p: set(verdict[p]) for p, _ in CLAUSES}
-    # a case inside the guard must pass everything (the theorems say so): cross-check of the guard itself
-    guard_bad = set(verdict["cl_guard"])
+    for i in verdict["lxml_covered"]:
+        ck.failure("lxml-model-abstains-inside-domain", f"the lxml sink model abstains inside guard and domain: {live[i]['events']!r}"[:600],
+                   {"cfg": live[i]["cfg"], "user": live[i]["user"], "events": live[i]["events"]})
     _t(ck, "refine")
 
     def describe(c):
@@ -630,6 +646,7 @@ def run(ck: Check):
                       "and reaches flush_start/start_namespaces; `inside_guard` counts the triples on which writer_guard holds (the region the theorems cover)")
     ck.cov["inside_guard"] = in_guard
     ck.cov["lxml_sink_model_abstained"] = len(live) - len(verdict["lxml_abstains"])
+    ck.cov["inside_guard_and_lxml_domain"] = len(live) - len(verdict["in_lxml_theorem"])
     ck.cov["failing_cases_explained_by_a_guard_clause"] = explained
     ck.cov["classes_seen"] = classes_seen
     ck.cov["skipped"] = skipped
